@@ -72,6 +72,13 @@ def io_workload(rng, prop):
         # the property's name alphabet is letters, digits and _ . | - in ANY position, the first included
         for k in rng.sample(range(n), rng.randint(1, n)):
             wl['names'][k] = rng.choice('_.|-') + wl['names'][k]
+    if rng.random() < 0.1:
+        # names that are words of the file formats themselves (all from the property's name alphabet)
+        words = ['CLUSTAL', 'CLUSTAL_ref', 'sp|CLUSTAL|1', 'MSF', 'Name', 'Len', 'Check', 'Weight', 'Type', 'PileUp', 'multiple', 'Kalign', 'MUSCLE', 'alignment', 'NA_MULTIPLE_ALIGNMENT']
+        for k in rng.sample(range(n), min(n, rng.randint(1, 3))):
+            wl['names'][k] = rng.choice(words) + rng.choice(['', '.%d' % k, '_%d' % k])
+        if len(set(wl['names'])) < n:
+            wl['names'] = [nm if wl['names'].index(nm) == i else '%s.%d' % (nm, i) for i, nm in enumerate(wl['names'])]
     case_mode = rng.choice([0, 0, 1, 2])
     wl['seqs'] = [gen.recase(rng, s, case_mode) for s in wl['seqs']]
     return wl
